@@ -436,8 +436,29 @@ def ob_deprecated():
             exp = {'a': 'a', 'b': 'b', 'z': None}
         store.add_project_option(K('o', subproject=''), opt)
         cv = v.concretize() if hasattr(v, 'concretize') else v
+        # the value as a machine file or a default_options dictionary may deliver it: a string, or a LIST of strings. A single-valued option takes one value:
+        # a list of two is invalid whatever its first element is, and an empty list is no value at all
+        shape = choose(4, 'value given as')
+        if shape and form != 1:
+            if shape == 1: given = [cv]
+            elif shape == 2:
+                w = sym_enum(['enabled', 'a', 'b', 'bogus'], 'second'); given = [cv, w.concretize() if hasattr(w, 'concretize') else w]
+            else: given = []
+            try:
+                store.set_option(K('o', subproject=''), given)
+            except ME:
+                cover('rejected'); return          # a list is not the option's type: rejecting it is always right (the code accepts a one-element list only where a replacement table applies)
+            check(shape == 1 and exp[cv] is not None, 'a list that is not exactly one valid value is rejected for a single-valued option')
+            got = store.get_value_for(K('o', subproject=''))
+            check(got == exp[cv], 'the stored value is the (replaced) value')
+            cover('accepted'); return
+        if shape and form == 1:
+            if shape == 3: return
+            given = cv.split(',')
+            if shape == 2 and len(given) < 2: return
+            cv_list = given
         try:
-            store.set_option(K('o', subproject=''), cv)
+            store.set_option(K('o', subproject=''), cv if not (shape and form == 1) else cv_list)
         except ME:
             check(exp[cv] is None, 'MesonException only for a value that is invalid after the documented replacement'); cover('rejected'); return
         check(exp[cv] is not None, 'an invalid value is rejected')
@@ -458,7 +479,7 @@ def obligations(tier):
     out.append(Obligation('top/prefix', ob_prefix(), dict(sources='2^3', prefixes=PFX), labels=('done',)))
     out.append(Obligation('top/buildtype', ob_buildtype(), dict(buildtype='all', source='any of 3', debug_opt='given or not, written before or after buildtype'), labels=('done',)))
     out.append(Obligation('subproject/buildtype', ob_buildtype_sub(), dict(buildtype='all', source="the subproject's project() | subproject() call | command line sub:opt", debug_opt='given or not, written before or after buildtype'), labels=('done',)))
-    out.append(Obligation('deprecated', ob_deprecated(), dict(forms='dict on feature | dict on array | list on combo | renamed option', value='symbolic among valid, deprecated and invalid spellings'), labels=('accepted', 'rejected')))
+    out.append(Obligation('deprecated', ob_deprecated(), dict(forms='dict on feature | dict on array | list on combo | renamed option', value='symbolic among valid, deprecated and invalid spellings; given as a string, a one-element list, a two-element list or an empty list'), labels=('accepted', 'rejected')))
     out.append(Obligation('yielding/kinds', ob_yield_kinds(), dict(kinds='boolean, integer -2..2, string <=1, feature, combo, array', parent='symbolic value, then set from the command line'),
                           labels=('yields', 'different-type'), max_paths=2000000))
     for kind in ('system', 'project', 'yielding'):
